@@ -29,10 +29,16 @@ META = {
                   "when the uncut dual edges span; C16_singularities_on_border_two_cut_edges / "
                   "C16_cut_edge_ends_on_border - on a vertex-manifold oriented triangulated surface every singular "
                   "vertex (every end of a cut edge) has a copy on the border of the rebuilt mesh, under the VISIBLE "
-                  "GUARD that the cut graph has two distinct edges (corner-ring argument). The hypotheses on the input "
+                  "GUARD that the cut graph has two distinct edges (corner-ring argument); C16_cut_mesh_border_exact - "
+                  "exact characterisation of the border half-edges of the cut mesh, each lying over an input border "
+                  "edge or an edge of cut_edges; C16_uncut_vertices_not_duplicated - a vertex on no cut edge is not "
+                  "duplicated and an empty cut set leaves the mesh uncut (sphere exception, model side); "
+                  "C16_cut_mesh_counts (F' = F, V' = out_n). The hypotheses on the input "
                   "surface and on the dual tree are boolean checkers evaluated on every generated case. "
                   "NOT PROVED, only checked on mouette's output on every run: Euler characteristic 1 and the single "
-                  "border loop of the disk claim (no theorem; the former lia identity is no longer an obligation). "
+                  "border loop of the disk claim (the count of output edges and of corner classes per vertex is not "
+                  "established; F' and V' are), and that the pruned cut graph of a closed sphere with < 2 "
+                  "singularities is empty. "
                   "REFUTED: C16_disk_refuted - a closed sphere with two ADJACENT singular vertices is returned uncut "
                   "(the guard fails: one cut edge; known finding). The dual Dijkstra tree and the singularity "
                   "spanning tree are validated per run (spanning-tree certificate) instead of being modelled; their "
